@@ -355,6 +355,32 @@ def T_flat_call_chain(n):
     return "function f() { return f; } f" + "()" * n + " === f", True
 
 
+def _via(kind, inner):
+    """The same nested source handed to eval() / new Function() by a tiny outer program: the nested compiler refuses (or runs) it
+    exactly as the context's own eval does."""
+    import json as _json
+
+    def t(n):
+        src, want = inner(n)
+        if kind == "eval":
+            return "eval(%s)" % _json.dumps(src), want
+        return "new Function(%s)()" % _json.dumps("return " + src), want
+    return t
+
+
+def T_nested_unary(n):
+    return "-" + " -" * (2 * n - 1) + "1", 1
+
+
+def T_nested_object_literals(n):
+    return "({a: " * n + "4" + "})" * n + ".a" * n, 4
+
+
+for _nm in ("nested_parens", "nested_calls", "nested_blocks_and_ifs", "nested_functions", "nested_unary", "nested_object_literals", "flat_sum_long"):
+    globals()["T_%s_via_eval" % _nm] = _via("eval", globals()["T_" + _nm])
+    if _nm not in ("nested_calls", "nested_blocks_and_ifs", "flat_sum_long"):      # (those are statement lists, not one expression)
+        globals()["T_%s_via_function" % _nm] = _via("function", globals()["T_" + _nm])
+
 TEMPLATES = {k[2:]: v for k, v in list(globals().items()) if k.startswith("T_")}
 # bytes of code per unit, used to place scales right at the 65535 jump boundary for each jump template
 JUMPY = {"while", "for", "dowhile", "if_true", "if_false", "if_skip", "switch_bodies", "try", "and_chain", "or_chain",
@@ -530,7 +556,7 @@ def main(ctx):
                 t["max_ok_n"] = max(t["max_ok_n"], c["n"])
                 ctx.nontrivial(c["id"])
         elif r["out"] == "jserr" and r["err"].get("cls") in ("JSError", "JSSyntaxError") and REFUSAL.search(r["err"].get("msg", "")) \
-                and r["vm_steps"] == 0:
+                and r["vm_steps"] <= (12 if "_via_" in c["tmpl"] and not c["tmpl"].startswith("bigfn_via_") else 0):    # (the outer `eval(<text>)` itself)
             refused += 1
             t["refused"] += 1
             t["min_refused_n"] = c["n"] if t["min_refused_n"] is None else min(t["min_refused_n"], c["n"])
